@@ -626,7 +626,10 @@ def shrink_case(rel, inp, workdir, want, rounds=25):
 
     want = 'holds' (keep holds=false) or 'agree' (keep agree=false)."""
     cur = inp
+    deadline = time.time() + float(os.environ.get("VERIF_SHRINK_S", "45"))
     for r in range(rounds):
+        if time.time() > deadline:
+            break
         cands = list(rel.shrink(cur))[:60]
         if not cands:
             break
